@@ -642,6 +642,8 @@ host_write_s2f	(SF_PRIVATE *psf, const short *ptr, sf_count_t len)
 /* Erik */
 	scale = (psf->scale_int_float == 0) ? 1.0 : 1.0 / 0x8000 ;
 	bufferlen = ARRAY_LEN (ubuf.fbuf) ;
+	/* Whole frames only : the PEAK update counts channels from the start of the buffer. */
+	bufferlen -= bufferlen % psf->sf.channels ;
 
 	while (len > 0)
 	{	if (len < bufferlen)
@@ -673,6 +675,8 @@ host_write_i2f	(SF_PRIVATE *psf, const int *ptr, sf_count_t len)
 
 	scale = (psf->scale_int_float == 0) ? 1.0 : 1.0 / (8.0 * 0x10000000) ;
 	bufferlen = ARRAY_LEN (ubuf.fbuf) ;
+	/* Whole frames only : the PEAK update counts channels from the start of the buffer. */
+	bufferlen -= bufferlen % psf->sf.channels ;
 
 	while (len > 0)
 	{	if (len < bufferlen)
@@ -732,6 +736,8 @@ host_write_d2f	(SF_PRIVATE *psf, const double *ptr, sf_count_t len)
 	sf_count_t	total = 0 ;
 
 	bufferlen = ARRAY_LEN (ubuf.fbuf) ;
+	/* Whole frames only : the PEAK update counts channels from the start of the buffer. */
+	bufferlen -= bufferlen % psf->sf.channels ;
 
 	while (len > 0)
 	{	if (len < bufferlen)
@@ -886,6 +892,8 @@ replace_write_s2f	(SF_PRIVATE *psf, const short *ptr, sf_count_t len)
 
 	scale = (psf->scale_int_float == 0) ? 1.0 : 1.0 / 0x8000 ;
 	bufferlen = ARRAY_LEN (ubuf.fbuf) ;
+	/* Whole frames only : the PEAK update counts channels from the start of the buffer. */
+	bufferlen -= bufferlen % psf->sf.channels ;
 
 	while (len > 0)
 	{	if (len < bufferlen)
@@ -919,6 +927,8 @@ replace_write_i2f	(SF_PRIVATE *psf, const int *ptr, sf_count_t len)
 
 	scale = (psf->scale_int_float == 0) ? 1.0 : 1.0 / (8.0 * 0x10000000) ;
 	bufferlen = ARRAY_LEN (ubuf.fbuf) ;
+	/* Whole frames only : the PEAK update counts channels from the start of the buffer. */
+	bufferlen -= bufferlen % psf->sf.channels ;
 
 	while (len > 0)
 	{	if (len < bufferlen)
@@ -983,6 +993,8 @@ replace_write_d2f	(SF_PRIVATE *psf, const double *ptr, sf_count_t len)
 	sf_count_t	total = 0 ;
 
 	bufferlen = ARRAY_LEN (ubuf.fbuf) ;
+	/* Whole frames only : the PEAK update counts channels from the start of the buffer. */
+	bufferlen -= bufferlen % psf->sf.channels ;
 
 	while (len > 0)
 	{	if (len < bufferlen)
